@@ -327,7 +327,7 @@ pub fn guided_lt_msg(rng: &mut impl Rng, d: &Driver) -> MsgSpec {
         let algs = ["none", "none", "md5", "sha", "md5_sha", "sha_md5", "unsup_md5", "sha_p", "md5_sha_p"][rng(9) as usize];
         let cookie = algs != "none" || rng(2) == 0;
         json!({"realm": if rng(12) == 0 { "other" } else { "ok" },
-               "nonce": if cookie { "fresh_cookie" } else { "fresh" },
+               "nonce": if rng(25) == 0 { "odd_cookie" } else if cookie { "fresh_cookie" } else { "fresh" },
                "pa": algs != "none", "ua": cookie && rng(3) == 0, "algs": algs,
                "dup": match rng(20) { 0 => json!(true), 1 | 2 => json!("flip"), 3 => json!("algs"), _ => json!(false) }})
     };
